@@ -8,7 +8,8 @@ HERE = os.path.dirname(os.path.dirname(os.path.abspath(__file__)))
 
 BASE = ("real /repo scripts run (fork + runpy) on tmpfs under an os.*/open "
         "interposition shim (event trace, virtual mount table, write fence, "
-        "audit-hook cross-check per run; a sample of every run is replayed on "
+        "audit-hook cross-check per run, optional dropping of the capabilities "
+        "that let root ignore mode bits; a sample of every run is replayed on "
         "real tmpfs mounts in a private mount namespace and in fresh "
         "interpreters, disagreement = inconclusive); runtime contracts "
         "(icontract) on the pure functions are bound in every run; ")
@@ -20,10 +21,10 @@ P = {
          'put -> optional history -> restore from original dir / ancestors / path argument under every --sort; pre-put signature must reappear at the exact path and only that pair may leave the trash.', '4/C02'),
  'C03': ('exploration', 'runtime contracts on format/parse functions + raw-bytes grammar monitor on written .trashinfo files',
          'icontract-bound postconditions on the real format_trashinfo/parse functions driven with generated locations and dates, plus end-to-end byte-level grammar and round-trip checks through trash-list/restore/rm.', '4/C03'),
- 'C04': ('exploration', 'controlled process scheduler over file-system operations (preemption-bounded exhaustive + random) and free-running stress; multiset oracle',
-         'Two/three real trash-put processes stepped operation by operation by a scheduler (all schedules up to a preemption bound, plus random ones), and free-running parallel stress; afterwards pairs must be distinct, complete and old entries intact.', '4/C04'),
- 'C05': ('fault_enumeration', 'crash-point enumeration (_exit before every fs operation) + SIGKILL sampling; on-disk state oracle',
-         'For each scenario every position between two file-system operations is a crash point (exhaustive per scenario); state after the crash must have each entry complete on one side and every payload accompanied by a parseable info.', '4/C05'),
+ 'C04': ('exploration', 'controlled process scheduler over file-system operations (preemption-bounded exhaustive + random), free-running stress, trace-driven adaptive pre-states; multiset oracle',
+         'Two/three real trash-put processes stepped operation by operation by a scheduler (all schedules up to a preemption bound, plus random ones), free-running parallel stress, and adaptive re-runs in which every name an earlier run touched without reserving it already belongs to an older entry; afterwards pairs must be distinct, complete and old entries intact.', '4/C04'),
+ 'C05': ('fault_enumeration', 'crash-point enumeration (_exit before, KeyboardInterrupt after every mutating fs operation) + SIGKILL sampling; on-disk state oracle',
+         'For each scenario every position between two file-system operations is a crash point (exhaustive per scenario), once as an abrupt _exit and once as a handled SIGINT (KeyboardInterrupt when the call returns); the state afterwards must have each entry complete on one side and every payload accompanied by a parseable info.', '4/C05'),
  'C06': ('exploration', 'snapshot oracle over destination kinds x --overwrite',
          'Every kind of pre-existing destination x trashed kind x --overwrite on/off, single and multi-index replies; refusal must leave destination and pair intact.', '4/C06'),
  'C07': ('exploration', 'independent decision-table reference (spec) vs observed trash dir; trace monitor for same-volume rename and modes',
@@ -42,7 +43,7 @@ P = {
          'Reply grammar and scope test against independent references over generated strings, and end-to-end: listed set, numbering, order, index-to-entry agreement, all-or-nothing.', '4/C13'),
  'C14': ('exploration', 'frame snapshots; dry-run vs real-run differential on identical worlds; reply generator',
          'dry-run leaves snapshot identical and prints exactly what the real run removes; negative replies change nothing (pipe and pty).', '4/C14'),
- 'C15': ('fault_enumeration', 'crash-point enumeration over restore/empty/rm + re-run to completion',
+ 'C15': ('fault_enumeration', 'crash-point and interrupt-point enumeration over restore/empty/rm + re-run to completion',
          'Every crash point of restore/empty/rm runs; no new orphan payload, restored entry complete on one side, re-run completes.', '4/C15'),
  'C16': ('exploration', 'per-argument differential (list vs alone) + exit/diagnostic oracle',
          'Argument lists mixing classes in all orders; exit status truthful, each failed argument named, outcome equals the outcome alone in an identical world.', '4/C16'),
